@@ -134,6 +134,8 @@ def c12(prog, rep):
     E.rule_r2(prog, rep, E.ACCESSOR_UNITS)
     C.rule_m4(prog, rep, E.ACCESSOR_UNITS + ['src/utilities/qstring.c'], rid='R2-len')
     E.rule_r2_move(prog, rep, E.ACCESSOR_UNITS)
+    E.rule_r2_fill(prog, rep, E.ACCESSOR_UNITS)
+    rep.floor('R2-fill', 2)
     from . import hasharr as HA
     HA.rule_i7(prog, rep)
     rep.floor('R2-move', 4)
@@ -210,6 +212,11 @@ def c01(prog, rep):
     res = T.rule_t3(prog, rep)
     T.rule_a4(prog, rep, res, rid='T3-root')
     K.rule_t4(prog, rep, om, units=[T.UNIT])
+    from . import escape as E
+    E.rule_r2(prog, rep, [T.UNIT])
+    E.rule_r2_move(prog, rep, [T.UNIT])
+    rep.floor('R2', 3)
+    rep.floor('R2-move', 4)
     rep.floor('T1', 25)
     rep.floor('T2', 8)
     rep.floor('T3', 18)
@@ -250,6 +257,11 @@ def c05(prog, rep):
     CH.rule_s1_s2(prog, rep)
     CH.rule_s3(prog, rep, [CH.UNIT])
     K.rule_t4(prog, rep, om, units=[CH.UNIT])
+    from . import escape as E
+    E.rule_r2(prog, rep, [CH.UNIT])
+    E.rule_r2_fill(prog, rep, [CH.UNIT])
+    rep.floor('R2', 1)
+    rep.floor('R2-fill', 1)
     rep.floor('S1', 4)
     rep.floor('S2', 3)
     rep.floor('S3', 1)
